@@ -139,7 +139,11 @@ def reference(data, nfft, fs, wv, ovl, pairs, chans):
         for (i, j) in pairs:
             if (i, j) not in coh:
                 pxy = np.asarray(mlab.csd(rows[j], rows[i], nfft, fs, mlab.detrend_none, wv, od, scale_by_freq=True)[0])
-                coh[(i, j)] = pxy / np.sqrt(psd[i] * psd[j])
+                c = pxy / np.sqrt(psd[i] * psd[j])
+                # 0/0 bins (a spectrum vanishes there up to rounding: |X|^2 below 1e-22 of the channel's peak)
+                # are outside the property (float noise decides the value on either path): marked nan = "no demand"
+                dead = (np.abs(psd[i]) <= 1e-22 * np.max(np.abs(psd[i]))) | (np.abs(psd[j]) <= 1e-22 * np.max(np.abs(psd[j])))
+                coh[(i, j)] = np.where(dead, np.nan, c)
     return np.arange(nfft // 2 + 1) * fs / nfft, psd, coh
 
 
@@ -415,11 +419,14 @@ def seed_coq(cfg, o):
 
 
 # ----------------------------------------------------------------------------- oracle (the search)
-def _close(a, b, scale=1.0):
+def _close(a, b, scale=1.0, skip_nan_ref=False):
     a = np.asarray(a)
     b = np.asarray(b)
     if a.shape != b.shape:
         return False
+    if skip_nan_ref:                 # reference nan = no demand at that bin (0/0)
+        keep = np.isfinite(b)
+        a, b = a[keep], b[keep]
     na, nb = ~np.isfinite(a), ~np.isfinite(b)
     if np.any(na != nb):
         return False            # one path is undefined (0/0) where the other is not
@@ -493,12 +500,12 @@ def oracle_cache(cfg, o):
     for (i, j) in ij:
         want = o.rcoh[(i, j)][lbi:ubi]
         got = o.coh[i, j]
-        if not _close(got, want):
+        if not _close(got, want, skip_nan_ref=True):
             fails.append(Fail("C09/cache_to_coherency/%s" % par, "%s coherency of pair (%d,%d) differs from dense: %s"
                               % (ep, i, j, _worst(got, want)), str(got), str(want)))
             break
         if o.an is not None:
-            if not _close(o.an["coherence"][i, j], np.abs(want) ** 2):
+            if not _close(o.an["coherence"][i, j], np.abs(want) ** 2, skip_nan_ref=True):
                 fails.append(Fail("C09/SparseCoherenceAnalyzer.coherence", "coherence of pair (%d,%d) differs from dense: %s"
                                   % (i, j, _worst(o.an["coherence"][i, j], np.abs(want) ** 2))))
                 break
@@ -541,10 +548,10 @@ def oracle_seed(cfg, o):
                           % (o.coh.shape, want.shape)))
         return fails
     got = o.coh.reshape(want.shape)
-    if not _close(got, want):
+    if not _close(got, want, skip_nan_ref=True):
         fails.append(Fail("C09/SeedCoherenceAnalyzer/%s" % par, "seed rows differ from the dense result on the stacked "
                           "channels: " + _worst(got, want), str(got), str(want)))
-    elif not _close(o.coherence.reshape(want.shape), np.abs(want) ** 2):
+    elif not _close(o.coherence.reshape(want.shape), np.abs(want) ** 2, skip_nan_ref=True):
         fails.append(Fail("C09/SeedCoherenceAnalyzer.coherence", "coherence differs from dense"))
     else:
         pb = _phase_bad(o.relative_phases.reshape(want.shape), want)
